@@ -93,6 +93,12 @@ func scenarios(tier string) []vlib.Scenario {
 		add(params{Streams: st, Pending: "none", Failure: "refused-noclose", Order: "streams-first", P: 1})
 	}
 	add(params{Streams: "up+down", Pending: "none", Failure: "cut", Order: "conn-first", P: 1})
+	// a call / a metadata request is issued at the very moment the connection is closed: it fails or it precedes the Disconnect
+	for _, pe := range []string{"racecall", "racemeta"} {
+		for pp := 0; pp <= 2; pp++ {
+			add(params{Streams: "none", Pending: pe, Failure: "none", Order: "conn-only", P: pp})
+		}
+	}
 	// Close arrives exactly while a redial is succeeding (the broker has just answered the connect request of the new incarnation)
 	for _, st := range []string{"none", "up"} {
 		for pp := 0; pp <= 2; pp++ {
@@ -120,6 +126,14 @@ func config(sc vlib.Scenario, tier string) vsched.Config {
 	cfg := vsched.Config{Preempt: 1, Switch: 1, SelCase: 1, Stall: 1, Timer: -1, Horizon: 150 * time.Second, MaxSteps: 600000}
 	cfg.Budget[vsched.BudP] = p.P
 	cfg.Scope = func(site string) bool {
+		if strings.HasPrefix(p.Pending, "race") {
+			for _, s := range []string{"(*Conn).call", "(*Conn).send", "(*Conn).SendMetadata", "boundedWrite", "sendRequest", "SendDisconnect", "SendUpstreamCall", "iscp.(*Conn).close", "wire.(*ClientConn).Close", "h:write:client"} {
+				if strings.Contains(site, s) {
+					return true
+				}
+			}
+			return false
+		}
 		if p.Failure == "cutclose" {
 			return strings.Contains(site, "iscp.(*Conn).reconnect") || strings.Contains(site, "iscp.(*Conn).close") || strings.Contains(site, "iscp.(*Conn).Close") || strings.Contains(site, "iscp.(*Conn).setRedialing") || strings.Contains(site, "iscp.(*Conn).redialState") || strings.Contains(site, "ConnectWithConfig.func")
 		}
@@ -385,6 +399,18 @@ func (w *world) main() {
 	}
 	w.Phase = "closing"
 	bg := vcontext.Background()
+	if strings.HasPrefix(w.p.Pending, "race") {
+		w.pendKind = ""
+		vsched.Go("h:racer", func() {
+			rctx, rcancel := kit.Ctx(5 * time.Second)
+			defer rcancel()
+			if w.p.Pending == "racecall" {
+				w.Conn.SendCall(rctx, &iscp.UpstreamCall{DestinationNodeID: "d", Name: "racer", Type: "t"})
+			} else {
+				w.Conn.SendMetadata(rctx, &message.BaseTime{SessionID: "s", Name: "racer"})
+			}
+		})
+	}
 	order := w.p.Order
 	if w.p.Failure == "cutclose" {
 		order = "done-already"
